@@ -154,8 +154,13 @@ impl QoSController {
     }
 
     pub fn add_resource(&mut self, resource: ResourceStructure) {
-        self.number_of_resources += 1;
-        self.length += resource.len() as u16;
+        // the controller length and the resource count are 16-bit fields
+        self.number_of_resources = self
+            .number_of_resources
+            .checked_add(1)
+            .expect("too many RQSC resources");
+        self.length = u16::try_from(self.length as usize + resource.len())
+            .expect("RQSC controller structure too large");
         self.resource_structure.push(resource);
     }
 }
@@ -206,7 +211,8 @@ impl ResourceStructure {
 
         Self {
             resource_type,
-            length: length as u16,
+            // the resource length is a 16-bit field
+            length: u16::try_from(length).expect("RQSC resource structure too large"),
             resource_flags,
             resource_id,
         }
